@@ -322,6 +322,8 @@ def c09(F: Facts):
         for r in s['results']:
             for c in r['kids']:
                 listed[c].append((int(ptag), r['h'], r['bus']))
+    # (also refused attempts: the library fills in event_parent_id before it decides whether to accept)
+    hre_events = {r['ev'] for r in F.tr if r['k'] == 'disp' and r.get('hre')}
     for r in F.tr:
         if r['k'] != 'disp' or not r.get('ok'):
             continue
@@ -330,6 +332,8 @@ def c09(F: Facts):
         if s is None:
             continue
         if r['by'].__class__ is str:  # actor
+            if ev in hre_events:
+                continue  # a handler dispatched this object again later: it legitimately acquired a parent / is somebody's child
             if r.get('xp') is None and s['parent'] is not None:
                 v.append(('C09.c', f'event {ev} dispatched from ordinary code at idx {r["i"]} has parent {s["parent"]} ({_who(F, s["parent"])})'))
             if listed.get(ev):
@@ -337,6 +341,15 @@ def c09(F: Facts):
         else:
             pbus, pev, hi = r['by']
             ps = fin.get(pev)
+            if r.get('hre'):
+                # an existing object dispatched again from inside a handler: it is that handler's child (exactly once); it takes that
+                # handler's event as parent only if it had none
+                if not r['had_parent'] and ps is not None and s['parent'] != ps['id']:
+                    v.append(('C09.a', f'event {ev} (an existing object without parent) dispatched again by handler h{hi} of event {pev} on {pbus} has parent {_who(F, s["parent"])} instead of event {pev}'))
+                own = [x for x in listed.get(ev, []) if x == (pev, _h(hi), pbus)]
+                if len(own) != 1 and not F.hang:
+                    v.append(('C09.b', f'event {ev} (an existing object, bus already in its path: {r.get("in_path")}) dispatched again by handler h{hi} of event {pev} on {pbus} appears {len(own)} times among the children of that handler (expected exactly once); listed by {listed.get(ev)}'))
+                continue
             if r.get('xp') is None:
                 if ps is not None and s['parent'] != ps['id']:
                     v.append(('C09.a', f'event {ev} dispatched by handler h{hi} of event {pev} on {pbus} has parent {_who(F, s["parent"])} instead of event {pev}'))
